@@ -75,8 +75,7 @@ func (t *brokerPublishTransactionBase) regack(snRegack *snPkts1.Regack, newState
 		t.Fail(fmt.Errorf("REGACK return code: %d", snRegack.ReturnCode))
 		return nil
 	}
-	t.handler.registeredTopics.Store(snRegister.TopicID, snRegister.TopicName)
-	t.handler.pendingTopics.Delete(snRegister.TopicName)
+	t.handler.topicAnnounced(snRegister.TopicID, snRegister.TopicName)
 	return t.ProceedSN(newState, t.snPublish)
 }
 
